@@ -56,4 +56,5 @@ props! {
     "C14" => c14,
     "C15" => c15,
     "C16" => c16,
+    "C17" => c17,
 }
